@@ -306,6 +306,37 @@ func (f *bpRecFile) Write(b []byte) (int, error) {
 	f.r.add("f.Write", nil, err)
 	return n, err
 }
+func (f *bpRecFile) Chown(uid, gid int) error {
+	err := f.File.Chown(uid, gid)
+	f.r.add("f.Chown", nil, err)
+	return err
+}
+func (f *bpRecFile) ReadAt(b []byte, off int64) (int, error) {
+	n, err := f.File.ReadAt(b, off)
+	f.r.add("f.ReadAt", nil, err)
+	return n, err
+}
+func (f *bpRecFile) Seek(off int64, whence int) (int64, error) {
+	n, err := f.File.Seek(off, whence)
+	f.r.add("f.Seek", nil, err)
+	return n, err
+}
+func (f *bpRecFile) Sync() error { err := f.File.Sync(); f.r.add("f.Sync", nil, err); return err }
+func (f *bpRecFile) Truncate(size int64) error {
+	err := f.File.Truncate(size)
+	f.r.add("f.Truncate", nil, err)
+	return err
+}
+func (f *bpRecFile) WriteAt(b []byte, off int64) (int, error) {
+	n, err := f.File.WriteAt(b, off)
+	f.r.add("f.WriteAt", nil, err)
+	return n, err
+}
+func (f *bpRecFile) WriteString(s string) (int, error) {
+	n, err := f.File.WriteString(s)
+	f.r.add("f.WriteString", nil, err)
+	return n, err
+}
 
 // ---------------------------------------------------------------------------
 // worlds
@@ -372,7 +403,7 @@ func newWorld(kind, B string) *bpWorld {
 	} else {
 		populate(w.base, "")
 	}
-	w.roots = []string{"/secret", "/a", "/b", "/home", "/root", "/tmp", B + "c", "/evil", "/nl", "/nr", "/x", "/.."}
+	w.roots = []string{"/secret", "/a", "/b", "/home", "/root", "/tmp", B + "c", "/evil", "/nl", "/nr", "/x"}
 	w.rec = &recFS{VFS: w.base, log: &w.log}
 	w.bp = basepathfs.New(w.rec, B)
 	w.log = w.log[:0]
@@ -441,11 +472,12 @@ func (w *bpWorld) outside() string {
 	if w.B == "/" {
 		return ""
 	}
-	if w.kind == "memfs" {
+	if w.listsRoot() {
 		snapTree(w.base, "/", w.B, "", &sb)
 		return sb.String()
 	}
-	// OrefaFS cannot list its root: snapshot the known top-level names (and the names an escape would create)
+	// an OrefaFS that cannot list its root (root stored under the key ""): snapshot the known top-level
+	// names (and the names an escape would create)
 	for _, r := range w.roots {
 		if r == w.B {
 			continue
@@ -453,6 +485,18 @@ func (w *bpWorld) outside() string {
 		snapTree(w.base, r, w.B, "", &sb)
 	}
 	return sb.String()
+}
+
+// listsRoot: the base can stat and list "/" (MemFS; OrefaFS once its root key is repaired).
+func (w *bpWorld) listsRoot() bool {
+	if w.kind == "memfs" {
+		return true
+	}
+	if _, err := w.base.Lstat("/"); err != nil {
+		return false
+	}
+	_, err := w.base.ReadDir("/")
+	return err == nil
 }
 
 // inside: B's subtree in the base, with paths made relative to B.
@@ -574,6 +618,65 @@ func doCall(v avfs.VFS, op string, a []string) (res callRes) {
 			}
 			err = f.Close()
 		}
+	case "FileR", "FileW":
+		// every method of the handle, on the open handle (several of them must fail: ReadDir on a file,
+		// Read on a directory, Write on a read-only handle, Seek with a bad whence, Chdir on a file ...)
+		// and again after Close; every path of every returned error and Name() are collected in order
+		flag := os.O_RDONLY
+		if op == "FileW" {
+			flag = os.O_WRONLY | os.O_CREATE
+		}
+		f, oerr := v.OpenFile(arg(0), flag, 0o644)
+		if oerr != nil {
+			err = oerr
+			break
+		}
+		var outc, paths []string
+		note := func(m string, e error) {
+			if e == nil {
+				outc = append(outc, m+":ok")
+			} else {
+				outc = append(outc, m+":"+innerErr(e))
+			}
+			paths = append(paths, errPaths(e)...)
+		}
+		buf := make([]byte, 4)
+		round := func() {
+			paths = append(paths, f.Name())
+			_, e := f.Stat()
+			note("Stat", e)
+			_, e = f.ReadDir(-1)
+			note("ReadDir", e)
+			_, e = f.Readdirnames(-1)
+			note("Readdirnames", e)
+			_, e = f.Read(buf)
+			note("Read", e)
+			_, e = f.ReadAt(buf, 0)
+			note("ReadAt", e)
+			_, e = f.Write([]byte("x"))
+			note("Write", e)
+			_, e = f.WriteAt([]byte("y"), 1)
+			note("WriteAt", e)
+			_, e = f.WriteString("z")
+			note("WriteString", e)
+			_, e = f.Seek(0, 5)
+			note("SeekWhence", e)
+			_, e = f.Seek(-1, 0)
+			note("SeekNeg", e)
+			_, e = f.Seek(0, 0)
+			note("Seek", e)
+			note("Truncate", f.Truncate(1))
+			note("Sync", f.Sync())
+			note("Chmod", f.Chmod(0o640))
+			note("Chown", f.Chown(0, 0))
+			note("Chdir", f.Chdir())
+		}
+		round()
+		note("Close", f.Close())
+		round()
+		note("Close2", f.Close())
+		res.data = strings.Join(outc, ",")
+		res.errPaths = paths
 	case "WalkDir":
 		var seen []string
 		err = v.WalkDir(arg(0), func(p string, d fs.DirEntry, e error) error {
@@ -682,6 +785,10 @@ var bpForward = map[string]bool{"Stat": true, "Lstat": true, "Abs": true, "Mkdir
 	"RemoveAll": true, "Sub": true, "Link": true, "Rename": true, "Getwd": true}
 
 // ops that reach the base first with ToBasePath of their (first) argument through generic code
+// ops that open a handle with ToBasePath of the argument and then call every method of it: every path
+// the base file returned (error paths, Name) comes back through fromBasePath, in order
+var bpFile = map[string]bool{"FileR": true, "FileW": true}
+
 var bpFirst = map[string]bool{"ReadFile": true, "ReadDir": true, "Open": true, "WalkDir": true, "WriteFile": true,
 	"Create": true, "OpenFileC": true, "FChdir": true}
 
@@ -745,7 +852,9 @@ func (w *bpWorld) step(op string, a []string) opOut {
 	for _, x := range a {
 		head += " " + tok(x)
 	}
-	if w.dead || isRootTarget(w, op, a) {
+	if w.dead || isRootTarget(w, op, a) || (bpFile[op] && a[0] == "") {
+		// (a MemFile opened with the empty name is unusable, the handle methods of the reference would all
+		// fail while the wrapper's act on the current directory: OpenFile("") itself is covered by Open)
 		return opOut{caseTxt: head + " ; skip", obsTxt: "skip"}
 	}
 	if op == "XBaseChdir" {
@@ -769,6 +878,14 @@ func (w *bpWorld) step(op string, a []string) opOut {
 		return opOut{caseTxt: head + " ; ext", obsTxt: "ext"}
 	}
 	bcwd, _ := w.base.Getwd()
+	vabs := ""
+	if bpFile[op] {
+		vabs = a[0]
+		if !strings.HasPrefix(vabs, "/") {
+			vabs = w.vcwd() + "/" + vabs
+		}
+		vabs = filepath.Clean(vabs)
+	}
 	out0 := w.outside()
 	var refAbs func(string) string
 	if w.ref != nil {
@@ -795,6 +912,22 @@ func (w *bpWorld) step(op string, a []string) opOut {
 	caseTxt := fmt.Sprintf("%s ; c=%s ; in=%s", head, tok(bcwd), toks(allIn))
 	obs := ""
 	switch {
+	case bpFile[op]:
+		var rawAll []string
+		for _, r := range recs {
+			if r.meth != "Getwd" {
+				rawAll = append(rawAll, r.out...)
+			}
+		}
+		caseTxt += " ; raw=" + toks(rawAll)
+		obs = "tb=" + toks(first) + " back=" + toks(br.errPaths)
+		// every path a method of the handle returns (error paths, Name) is the virtual path of the file
+		for _, q := range br.errPaths {
+			if q != vabs {
+				fails = append(fails, fmt.Sprintf("a path returned by a method of the file handle is not the virtual path %q: %q", vabs, q))
+				break
+			}
+		}
 	case bpForward[op]:
 		caseTxt += " ; raw=" + toks(raw)
 		obs = "tb=" + toks(first) + " back=" + toks(append(append([]string(nil), br.errPaths...), br.strs...))
@@ -868,6 +1001,12 @@ func (w *bpWorld) step(op string, a []string) opOut {
 			for i := range br.errPaths {
 				br.errPaths[i] = filepath.Dir(br.errPaths[i])
 			}
+		}
+		if op == "Rename" && a[0] != a[1] && refAbs(a[0]) == refAbs(a[1]) && rr.kind == "ok" && br.kind == "err" && br.errStr == "file exists" {
+			// Rename of a directory onto ANOTHER SPELLING of itself: package os (and MemFS after it) refuses
+			// only when the two names are the same string; the wrapper hands the base two identical cleaned
+			// paths (known finding KF-C10-renameself, reproduced by the bpkf stream). Exactly that class is accepted.
+			br.kind, br.errStr, br.errPaths = rr.kind, rr.errStr, rr.errPaths
 		}
 		if (op == "Stat" || op == "Lstat") && rr.kind == "ok" && br.kind == "ok" {
 			// FileInfo.Name(): the base names the result after the translated path, i.e. after the last element of
@@ -1002,8 +1141,8 @@ func runHist(kind, B string, ops []bpOp) (caseLine, obsLine, failure string) {
 
 // every path-taking call with p, read-only ones first, destructive ones last
 func opsFor(p string) []bpOp {
-	one := []string{"Stat", "Lstat", "Abs", "Glob", "ReadFile", "ReadDir", "Open", "WalkDir", "Sub", "Readlink", "EvalSymlinks",
-		"Mkdir", "MkdirAll", "WriteFile", "Create", "OpenFileC", "CreateTemp", "MkdirTemp",
+	one := []string{"Stat", "Lstat", "Abs", "Glob", "ReadFile", "ReadDir", "Open", "FileR", "WalkDir", "Sub", "Readlink", "EvalSymlinks",
+		"Mkdir", "MkdirAll", "WriteFile", "Create", "OpenFileC", "FileW", "CreateTemp", "MkdirTemp",
 		"Chmod", "Chown", "Lchown", "Chtimes", "Truncate"}
 	var ops []bpOp
 	for _, o := range one {
@@ -1073,7 +1212,7 @@ func randPath(r *rng) string {
 
 func randHist(r *rng, kind, B string, n int) hist {
 	one := []string{"Stat", "Lstat", "Abs", "Glob", "ReadFile", "ReadDir", "Open", "WalkDir", "Sub", "Mkdir", "MkdirAll",
-		"WriteFile", "Create", "OpenFileC", "CreateTemp", "MkdirTemp", "Chmod", "Chown", "Chtimes", "Truncate", "Chdir", "Chdir",
+		"WriteFile", "Create", "OpenFileC", "FileR", "FileR", "FileW", "CreateTemp", "MkdirTemp", "Chmod", "Chown", "Chtimes", "Truncate", "Chdir", "Chdir",
 		"FChdir", "Remove", "RemoveAll", "Readlink"}
 	globs := []string{"*", "/*", "/a/*", "../*", "a/*", "/*/*", "/c/*", "./*", "/../*", "*/.."}
 	h := hist{kind: kind, B: B}
@@ -1106,6 +1245,8 @@ func bpCorpus() []hist {
 		mk("/c", bpOp{"Open", []string{"../b"}}, bpOp{"Glob", []string{"/../*"}}, bpOp{"Glob", []string{"*"}}),
 		mk("/c", bpOp{"Stat", []string{"/../cc/secret2"}}, bpOp{"Rename", []string{"/b", "/../stolen"}}, bpOp{"Link", []string{"/../secret", "/s"}}),
 		mk("/", bpOp{"Stat", []string{"/nope"}}, bpOp{"Chdir", []string{"/a"}}, bpOp{"Getwd", nil}, bpOp{"Open", []string{"f"}}),
+		mk("/c", bpOp{"FileR", []string{"/a/f"}}, bpOp{"FileR", []string{"/a"}}, bpOp{"Chdir", []string{"/a"}}, bpOp{"FileW", []string{"f"}}, bpOp{"FileW", []string{"../new"}}),
+		mk("/c/d", bpOp{"FileR", []string{"b"}}, bpOp{"FileW", []string{"/a/b/../n"}}),
 		mk("/c", bpOp{"XBaseChdir", []string{"/cc"}}, bpOp{"Getwd", nil}, bpOp{"ReadFile", []string{"secret2"}}, bpOp{"Stat", []string{"../secret"}}, bpOp{"WriteFile", []string{"w"}}),
 		mk("/c/d", bpOp{"Mkdir", []string{"/x"}}, bpOp{"Chdir", []string{"x"}}, bpOp{"WriteFile", []string{"../../y"}}, bpOp{"Getwd", nil}),
 	}
@@ -1333,6 +1474,11 @@ func runBpKf(cfg config) {
 		rj, _ := w.ref.Stat(".")
 		return fmt.Sprintf("root=%s ref=%s last=%s dot=%s refdot=%s", tok(i.Name()), tok(ri.Name()), tok(filepath.Base(w.B)), tok(j.Name()), tok(rj.Name()))
 	}), "infoname")
+	// KF-C10-renameself: a directory renamed onto another spelling of itself
+	w = newWorld("memfs", "/c")
+	o.emit("kf renameself", guard(func() string {
+		return fmt.Sprintf("bp=%v ref=%v", w.bp.Rename("a", "/a") == nil, w.ref.Rename("a", "/a") == nil)
+	}), "renameself")
 	// KF-C10-rootops: RemoveAll("/") removes the base directory itself
 	w = newWorld("memfs", "/c")
 	o.emit("kf rootops", guard(func() string {
